@@ -244,23 +244,23 @@ def worker(ctx, job):
 
 def run(ctx):
     njobs = 16
-    nshort = ctx.pick(3, 120)       # per job
-    nlong = ctx.pick(20, 800)
+    nshort = ctx.pick(3, 80)       # per job
+    nlong = ctx.pick(20, 600)
     jobs = []
     for j in range(njobs):
         jobs.append({"short": list(range(j * nshort, (j + 1) * nshort)),
                      "long": list(range(j * nlong, (j + 1) * nlong)),
                      "nrandom": ctx.pick(40, 120), "budget": ctx.pick(25, 330)})
     ctx.shard(jobs, timeout=ctx.pick(60, 400))
-    ctx.floor("distinct_nontrivial", ctx.pick(100, 4000))
-    ctx.floor("whole_parses", ctx.pick(120, 5000))
-    ctx.floor("split_cases", ctx.pick(60000, 2500000))
-    ctx.floor("short_messages_exhaustive", ctx.pick(16, 600))
-    ctx.floor("chunk_extensions", ctx.pick(40, 1500))
-    ctx.floor("trailers", ctx.pick(10, 500))
-    ctx.floor("pipelined_tail", ctx.pick(60, 2500))
+    ctx.floor("distinct_nontrivial", ctx.pick(100, 3000))
+    ctx.floor("whole_parses", ctx.pick(120, 3500))
+    ctx.floor("split_cases", ctx.pick(60000, 2000000))
+    ctx.floor("short_messages_exhaustive", ctx.pick(16, 400))
+    ctx.floor("chunk_extensions", ctx.pick(40, 1200))
+    ctx.floor("trailers", ctx.pick(10, 400))
+    ctx.floor("pipelined_tail", ctx.pick(60, 1800))
     ctx.floor("sep:nosp", ctx.pick(20, 300))
-    ctx.floor("bare_lf_heads", ctx.pick(3, 40))
+    ctx.floor("bare_lf_heads", ctx.pick(3, 150))
     for fl in ("request/length", "request/chunked", "request/none", "response/length", "response/chunked",
                "response/close", "response/nobody"):
-        ctx.floor("flavour:" + fl, ctx.pick(4, 150))
+        ctx.floor("flavour:" + fl, ctx.pick(3, 120))
